@@ -297,6 +297,28 @@ def hostile_root_scenarios():
     return out
 
 
+def upgrade_scenarios():
+    """scripted histories (C01): an object created under the OLDER specification in a 1.1 repository is upgraded
+    before its first commit (the upgrade installs v1), after it with staged changes, and after it without any;
+    every installed object must declare the version its inventories have"""
+    out = []
+    for n, (lay, alg, pad, cdir, ext) in enumerate([("0004", "sha512", 0, "content", False), ("none", "sha256", 3, "stuff", True),
+                                                     ("0002", "sha512", 0, "content", False)]):
+        cfg = {"layout": lay, "repo_spec": "1.1", "obj_spec": "1.0", "alg": alg, "cdir": cdir, "pad": pad,
+               "ext_staging": ext, "fresh_handle": n % 2 == 1}
+        a, b, c = obj_id(cfg, 0), obj_id(cfg, 1), obj_id(cfg, 2)
+        cp = lambda o, name, k: {"op": "cp_ext", "id": o, "files": [[name, k]], "dst": name, "recursive": False}
+        ops = [{"op": "new", "id": a}, cp(a, "a.txt", 1), {"op": "upgrade_object", "id": a, "spec": "1.1"},
+               cp(a, "b.txt", 2), {"op": "commit", "id": a},
+               {"op": "new", "id": b}, cp(b, "a.txt", 1), {"op": "commit", "id": b}, cp(b, "b.txt", 3),
+               {"op": "upgrade_object", "id": b, "spec": "1.1"}, cp(b, "c.txt", 4), {"op": "commit", "id": b},
+               {"op": "new", "id": c}, cp(c, "a.txt", 5), {"op": "commit", "id": c},
+               {"op": "upgrade_object", "id": c, "spec": "1.1"}, {"op": "upgrade_object", "id": c, "spec": "1.1"},
+               cp(c, "d.txt", 6), {"op": "commit", "id": c}]
+        out.append((cfg, ops))
+    return out
+
+
 def stranger_ids(cfg, main_rel_roots):
     """ids of objects that NEVER exist in the history but whose layout path is related to an existing object's
     root (a prefix directory, a path inside it, another id mapped to the same root) plus degenerate ids:
